@@ -48,30 +48,45 @@ class Freshness:
 
     # ---- one method ---------------------------------------------------------------------------------------------------
     def of_method(self, cls, fi):
-        env = {}
+        """flow-sensitive over the structured statements: a local holds the verdict of its LATEST definition on the path (joined - the worse
+        one - where paths meet; loop bodies are run twice so that loop-carried definitions reach their uses)"""
         params = fi.params[1:]
-        # flow-insensitive: a local's verdict is the worst over its definitions (two passes for chains)
-        # (optimistic start at FRESH for every assigned local, grown to a fixpoint: the order of the definitions in the text does not matter)
-        stores = [st for st in ast.walk(fi.node) if isinstance(st, ast.Assign) and len(st.targets) == 1 and isinstance(st.targets[0], ast.Name)]
-        for st in stores:
-            env[st.targets[0].id] = FRESH
-        for _ in range(12):
-            changed = False
-            for st in stores:
-                v = self.expr(st.value, env, cls, params)
-                nm = st.targets[0].id
-                w = worst(env[nm], v)
-                if w != env[nm]:
-                    env[nm] = w
-                    changed = True
-            if not changed:
-                break
-        out = None
-        for r in ast.walk(fi.node):
-            if isinstance(r, ast.Return) and r.value is not None:
-                v = self.expr(r.value, env, cls, params)
-                out = v if out is None else worst(out, v)
-        return out or FRESH
+        out = [None]
+
+        def join(a, b):
+            r = {}
+            for k in set(a) | set(b):
+                r[k] = worst(a[k], b[k]) if k in a and k in b else (a.get(k) or b.get(k))
+            return r
+
+        def run(stmts, env):
+            for st in stmts:
+                if isinstance(st, ast.Assign) and len(st.targets) == 1 and isinstance(st.targets[0], ast.Name):
+                    env[st.targets[0].id] = self.expr(st.value, env, cls, params)
+                elif isinstance(st, ast.Assign) and len(st.targets) == 1 and isinstance(st.targets[0], (ast.Tuple, ast.List)) \
+                        and isinstance(st.value, (ast.Tuple, ast.List)) and len(st.value.elts) == len(st.targets[0].elts):
+                    vals = [self.expr(v, env, cls, params) for v in st.value.elts]
+                    for t, v in zip(st.targets[0].elts, vals):
+                        if isinstance(t, ast.Name):
+                            env[t.id] = v
+                elif isinstance(st, ast.If):
+                    a, b = run(st.body, dict(env)), run(st.orelse, dict(env))
+                    env = join(a, b)
+                elif isinstance(st, (ast.For, ast.While)):
+                    e1 = join(env, run(st.body, dict(env)))
+                    env = join(e1, run(st.body, dict(e1)))
+                    env = join(env, run(st.orelse, dict(env)))
+                elif isinstance(st, (ast.With, ast.Try)):
+                    env = run(st.body, env)
+                    for h in getattr(st, 'handlers', []) or []:
+                        env = join(env, run(h.body, dict(env)))
+                    env = run(getattr(st, 'finalbody', []) or [], env)
+                elif isinstance(st, ast.Return) and st.value is not None:
+                    v = self.expr(st.value, env, cls, params)
+                    out[0] = v if out[0] is None else worst(out[0], v)
+            return env
+        run(fi.body, {})
+        return out[0] or FRESH
 
     def expr(self, e, env, cls, params):
         if isinstance(e, ast.Constant):
